@@ -105,19 +105,25 @@ def run(repo: Repo, chk: Check) -> None:
 
     # methods of the class that advance the index on every normal path (a helper a refactoring may have extracted): calling one is an advance
     advancing = set()
-    for name, m in fi.cls.methods.items():
-        if m is fi:
-            continue
-        mg = CFG(m.node)
-        madv = set(mg.nodes_where(lambda x: assigns_index(x.ast)))
-        if madv and mg.paths_avoiding(mg.entry, mg.exit, madv) is None:
-            advancing.add(name)
 
     def is_advance(n):
         if assigns_index(n.ast):
             return True
         return any(isinstance(c.func, ast.Attribute) and isinstance(c.func.value, ast.Name) and c.func.value.id == 'self' and c.func.attr in advancing
                    for e in node_exprs(n) for c in calls_in(e))
+
+    # least fixed point: a helper that calls an advancing helper on every normal path advances as well
+    changed = True
+    while changed:
+        changed = False
+        for name, m in fi.cls.methods.items():
+            if m is fi or name in advancing:
+                continue
+            mg = CFG(m.node)
+            madv = set(mg.nodes_where(is_advance))
+            if madv and mg.paths_avoiding(mg.entry, mg.exit, madv) is None:
+                advancing.add(name)
+                changed = True
 
     def is_delegate(n):
         return any(isinstance(c.func, ast.Attribute) and c.func.attr == 'request' for e in node_exprs(n) for c in calls_in(e))
